@@ -35,6 +35,10 @@ func H_C10_name() {
 		scope = symLabel("s1", l)
 		if l2 := vParam("scope2"); l2 > 0 {
 			scope += "." + symLabel("s2", l2)
+			// further labels (a scope is a domain name of any number of labels)
+			for k := 0; k < vParam("morelabels"); k++ {
+				scope += "." + string(rune('k'+k)) // concrete: the per-character validity test forks once per symbolic character
+			}
 		}
 	}
 	nb := &NetBIOSName{Name: name, ScopeID: scope}
@@ -142,10 +146,15 @@ func H_C10_packet() {
 	d.Answers = []NBTNSResourceRecord{{Name: old, Type: 0x20, Class: 1, RDLength: 1, RData: []byte{9}}}
 	d.Authority = []NBTNSResourceRecord{{Name: old, Type: 0x20, Class: 1}}
 	d.Additional = []NBTNSResourceRecord{{Name: old, Type: 0x20, Class: 1}}
-	n, err := d.Unmarshal(raw)
+	rx := append([]byte{}, raw...)
+	n, err := d.Unmarshal(rx)
 	vCheck(err == nil, "packet/unmarshal-ok")
 	if err != nil {
 		return
+	}
+	// the receive buffer is reused for the next datagram: the decoded packet keeps what was on the wire
+	for i := range rx {
+		rx[i] ^= 0xFF
 	}
 	vCheck(n == len(raw), "packet/consumed")
 	vCheck(d.Header == p.Header, "packet/header-fields")
